@@ -156,6 +156,38 @@ v = Schema([rule, r2, r3]).validate(doc)
 return isinstance(v.is_valid, bool)
 """
     out.append(mk_case("c07.cast.three_rules", [("u1", UN), ("t", "int")], body, pre=[f"BU({L}, u1, t)"], stubs=["sym_repr"]))
+    # concrete cast paths whose prefix lands on a string (a string is not a list: nothing selected, nothing cast)
+    for cast in ("bool", "int"):
+        cond = "Value.equal_to(t)" if cast == "int" else "Value.equal_to(True)"
+        out.append(cast_case(f"string_midpath.{cast}", "('ports', 0)", "{'ports': '8080', 'c': u1}", cast, cond, L))
+        out.append(cast_case(f"string_midpath.sym.{cast}", "('ports', i)", "{'ports': '80', 'c': u1}", cast, cond, L, [("i", "int")]))
+        out.append(cast_case(f"string_midpath.nested.{cast}", "('l', 1, 0)", "{'l': [u1, '7', ['3']], 'c': 'true'}", cast, cond, L))
+        out.append(cast_case(f"string_midpath.root_list.{cast}", "(0, 0)", "['0', u1]", cast, cond, L))
+    # conditions whose arguments are data paths with datum / multiplicity modifiers: the referenced node has whatever type
+    # the document gives it (no len, no keys, several matches) - the items fail, validation returns
+    for cid, cond in [
+        ("length", "Value.equal_to(DataPath('names').length())"),
+        ("length.spec", "ConditionLike.from_spec({'value.equal_to': {'path.length': ['names']}})"),
+        ("map_keys", "Value.in_(DataPath('names').map_keys())"),
+        ("map_values", "Value.in_(DataPath('opts').map_values())"),
+        ("single", "Value.equal_to(DataPath(MapValue()).single())"),
+        ("length.in_tree", "Value.is_instance(int) & (Value.less_than(DataPath('opts').length()) | Value.equal_to(DataPath('names', 0).length()))"),
+        ("length.in_list", "Value.in_([DataPath('names').length(), DataPath('opts').map_keys(), 3])"),
+        ("dtype.first", "Value.dtype.equal_to(DataPath('zz', ListValue()).dtype().first())"),
+    ]:
+        for did, doc in [("scalar", "{'names': u1, 'opts': [u1], 'x': 3, 'xs': [1, u1]}"), ("none", "{'names': None, 'opts': 1.5, 'x': u1, 'xs': []}"),
+                         ("ok", "{'names': ['a', u1], 'opts': {'k': u1}, 'x': 2, 'xs': [2]}")]:
+            body = f"""
+doc = {doc}
+cond = {cond}
+rules = [Rule(('x',), cond), Rule(('xs', ListValue()), cond), Rule((MapValue(),), cond)]
+good = True
+for r in rules:
+    good = good and isinstance(r.test(doc).is_valid, bool)
+v = Schema(rules).validate(doc)
+return good and isinstance(v.is_valid, bool) and isinstance(v.get_failures_string(), str)
+"""
+            out.append(mk_case(f"c07.patharg.{cid}.{did}", [("u1", UN)], body, pre=[f"BU({L}, u1)"], stubs=["sym_repr"]))
     # the same schema / rule objects validate a document, the caller edits the document in place (entries removed,
     # a branch replaced by a scalar, a list emptied), and they validate it again: still a result object
     for cid, doc, edits in [
